@@ -607,6 +607,7 @@ func (server *Server) registerCoreExecutors() {
 			if !isOption {
 				break
 			}
+			param, err = args.NextString()
 		}
 		if err != nil {
 			return nil, newMissingArgumentError(cmd, "score", err)
